@@ -61,6 +61,39 @@ CHECKS.update({
                "DESIGN.md 3.1, 5/C18"),
 })
 
+CHECKS.update({
+    "C06": dict(
+        engine="Dataset.tla, Dataset_Trace.tla, Dataset_Eval.tla", category="model_checking",
+        text="Dataset.tla with every file-system effect (mkdir, create, partial write, full write, rename) as a "
+             "separate step: C06_CrashSafe is an invariant of EVERY state (= crash point) for first and continued "
+             "sessions, fillers and multi-writer calls, at-close and streaming shard formats, and C06_Reader for a "
+             "reader interleaved with the writer's effects; the two necessary orderings are shown necessary by "
+             "protocol deviations that TLC refutes. Real writer processes (fb, npz, tfrec; filler and real "
+             "multi-process calls) are recorded with strace; every prefix of their effects plus torn variants of "
+             "every write is materialised, projected and judged by TLC (C06 on the files, R06 on what the real "
+             "reader returns from that directory), and each recorded effect sequence is validated against "
+             "Dataset_Trace.tla so the exhaustive model result transfers to the code.",
+        design_ref="DESIGN.md 3.1, 4.1, 5/C06",
+        note="Trusted: strace's view of the system calls, the materialiser (validated against real SIGKILLs in the "
+             "thorough tier), TLC. Crash = process death with the OS staying up (no power-loss reordering).",
+        technique="TLA+ model checking at file-system-effect granularity + strace trace validation + TLC-judged "
+                  "materialised crash states",
+    ),
+    "C09": dict(
+        engine="Dataset.tla, Dataset_Trace.tla, Dataset_Eval.tla", category="model_checking",
+        text="TLC explores every interleaving of K<=3 workers' file-system effects (distinct directories, parent "
+             "merge only after all workers, exact metadata, passing check, per-writer order). Real "
+             "write_multiprocessing(single_process=False) calls run under strace -f: per path the set of writing "
+             "worker processes is a singleton, the parent writes only after the last worker, results come back "
+             "in argument order, the final state is judged by TLC and equals the state produced by the same "
+             "writers run one after another; recorded effect sequences are validated against Dataset_Trace.tla.",
+        design_ref="DESIGN.md 3.1, 4.1, 5/C09",
+        note="Relative speeds of real worker processes are sampled (uneven loads), not enumerated; enumeration of "
+             "interleavings happens in the model only.",
+        technique="TLA+ model checking of worker interleavings + strace -f trace validation of real multi-process runs",
+    ),
+})
+
 NOT_YET = {}
 
 ALL = [f"C{i:02d}" for i in range(1, 21)]
